@@ -943,11 +943,18 @@ def const_range_on_array(F, site):
     if not m:
         return None
     N = int(m.group(1))
+    if 'RangeFull' in str(t['args'][1].get('ty') or '') or 'RangeFull' in str(t['callee'].get('generic_args') or ''):
+        return 'D2', 'the whole array is taken (`[..]`)'
     d = fn.def_rvalue(t['args'][1])
+    if d and d[0] == 'assign' and d[3]['k'] == 'aggregate' and str(d[3].get('adt', '')).endswith('RangeFull'):
+        return 'D2', 'the whole array is taken (`[..]`)'
     if not (d and d[0] == 'assign' and d[3]['k'] == 'aggregate' and str(d[3].get('adt', '')).split('::')[-1] in ('RangeTo', 'RangeFrom', 'RangeToInclusive') and len(d[3]['ops']) == 1):
         return None
     incl = str(d[3].get('adt', '')).endswith('RangeToInclusive')
     op = d[3]['ops'][0]
+    ub = _upper_bound(sym(fn, op)) if op.get('k') != 'const' else None
+    if ub is not None and ub + (1 if incl else 0) <= N:
+        return 'D2', 'the bound of the range is at most %d whatever the path (constants and truth values read as 0 / 1 added up), the array has %d elements' % (ub, N)
     vals = []
     if op.get('k') == 'const' and op.get('int') is not None:
         vals = [op['int']]
@@ -975,6 +982,31 @@ def const_range_on_array(F, site):
                     return None
     if vals and all(0 <= v + (1 if incl else 0) <= N for v in vals):
         return 'D2', 'the bound of the range is one of the constants %s on every path, the array has %d elements' % (sorted(set(vals)), N)
+    return None
+
+
+def _upper_bound(v, depth=0):
+    """the largest value an unsigned expression built from constants, bools read as numbers and sums can have (None: unknown)"""
+    if not isinstance(v, tuple) or not v or depth > 8:
+        return None
+    if v[0] == 'call' and len(v[2]) == 1 and psc._INT_FROM.search(v[1]):
+        inner = _upper_bound(v[2][0], depth + 1)
+        return inner
+    if v[0] == 'int':
+        return v[1]
+    if v[0] == 'cast':
+        if len(v) > 3 and v[3] == 'bool':
+            return 1
+        return _upper_bound(v[1], depth + 1)
+    if v[0] == 'checked':
+        v = ('binop', v[1], v[2], v[3])
+    if v[0] == 'field' and v[2] == '0' and isinstance(v[1], tuple) and v[1][0] == 'binop' and v[1][1].endswith('WithOverflow'):
+        v = ('binop', v[1][1][:-12], v[1][2], v[1][3])
+    if v[0] == 'binop' and v[1] == 'Add':
+        a, b = _upper_bound(v[2], depth + 1), _upper_bound(v[3], depth + 1)
+        return None if a is None or b is None else a + b
+    if v[0] == 'call' and v[1].endswith(('::is_some', '::is_none', '::is_ok', '::is_err')):
+        return 1
     return None
 
 
